@@ -12,10 +12,9 @@ CORR_ONLY = ["accuracy of Dawson_Integral (2e-7 absolute), Erfi (1e-6 relative),
              "point-wise identities of the harmonics (Y_{l,-m} = (-1)^m conj Y_{l,m}; vector Y = r_hat Y_lm; Psi tangential and = r grad Y_lm) "
              "against an independent reference (associated-Legendre recurrence in 40-digit arithmetic, validated against mpmath.spherharm)",
              "Boost spherical_harmonic itself; the summation loops of Vector_Spherical_Harmonics_Y/Psi (checked through the model's coefficient tables)"]
-ASSUMPTIONS = ["Erfi is evaluated for |x| <= 26.639 only (the property states |x| <= 30; Dawson is evaluated on all of it): the true value exceeds DBL_MAX for "
-               "|x| > 26.71, where no double implementation can meet a relative accuracy; on 26.6395 < |x| <= 26.71 the true value IS a double (erfi(26.64) = 3.47e306) "
-               "but Erfi returns inf because the intermediate 2/sqrt(pi)*exp(x^2) overflows before it is multiplied by Dawson(x) ~ 0.019 - reported as a candidate defect "
-               "(Erfi(26.64) = inf), excluded here until it is repaired or recorded",
+ASSUMPTIONS = ["Erfi is evaluated for |x| <= 26.71 (the property states 'all real arguments (|x|<=30 for Dawson/Erfi ...)'; Dawson is evaluated on all of it): "
+               "erfi(26.71) = 1.449e308 is the last tested value below DBL_MAX = 1.797e308, erfi(26.72) = 2.47e308 exceeds it, so beyond 26.71 the true value is not a double "
+               "and no double implementation can meet a relative accuracy (Erfi returns inf there)",
                "Round half-unit clause: for inputs within 2^-40 (relative) of a tie of the d-th digit the double product prefactor*10^(d-1) decides the direction, "
                "so the bound is half a unit + 4 ulp(x) there (half*(1+2^-30) everywhere else); examples on HEAD: Round(-9.9999995e-157,7) = -1e-156, "
                "Round(9.999999499999999e+130,7) = 1e+131, Round(5.9682484999999994e+131,7) = 5.968249e+131 (each at most 1 ulp(x) beyond half a unit)",
@@ -240,8 +239,9 @@ def generate(tier, seed, ctx):
         R.append("c17.roundV %s %d" % (lst(xs), d))
     # Dawson / Erfi
     xs = [0.0, 0.2, math.nextafter(0.2, 0), math.nextafter(0.2, 1), -0.2, 0.19, 0.21, 1e-300, 1e-8, 0.1, 0.4, 1.2, 2.0, 30.0, -30.0, 29.999, 0.924, 0.5, 1.0, 5.0, 10.0, 26.0,
-          26.639, -26.639, 26.5, 26.3, -26.1]
-    xs += [rng.choice([-1, 1]) * rng.uniform(25.0, 26.639) for _ in range(120 if thorough else 30)]
+          26.639, -26.639, 26.64, -26.64, 26.7, 26.71, -26.71, 26.5, 26.3, -26.1]
+    xs += [rng.choice([-1, 1]) * rng.uniform(25.0, 26.71) for _ in range(120 if thorough else 30)]
+    xs += [rng.choice([-1, 1]) * rng.uniform(26.6395, 26.71) for _ in range(60 if thorough else 20)]   # where 2/sqrt(pi)*exp(x^2) alone overflows
     for _ in range(2000 if thorough else 500):
         c = rng.random()
         xs.append(rng.choice([-1, 1]) * (rng.uniform(0, 0.4) if c < 0.25 else rng.uniform(0, 3) if c < 0.6 else rng.uniform(0, 30)))
@@ -251,7 +251,7 @@ def generate(tier, seed, ctx):
     for x in xs:
         if abs(x) <= 30:
             R.append("c17.dawson " + hx(x))
-        if abs(x) <= 26.639:
+        if abs(x) <= 26.71:
             R.append("c17.erfi " + hx(x))
     # Inv_Erf
     ps = [0.0, 0.5, -0.5, 0.999, -0.999, 1 - 1e-6, 1 - 1e-9, 1 - 1e-12, -1 + 1e-12, 1.0, -1.0, 1.5, -2.0, 1 - 1e-17, 1e-300, 1e-5, -1e-5]
